@@ -345,6 +345,9 @@ def validate_trace(ctx, moddir, module, cfg, tracefile, max_rounds=6, key_of=Non
             bad = r['depth']
         elif '<postcondition>' in r['violated']:
             bad = r['depth']  # 1-based index of the first line that could not be matched
+            hw = re.search(r'<<"HIGHWATER", (\d+)>>', r['out'])
+            if hw:
+                bad = int(hw.group(1))  # trace specs with silent steps report the highest line reached
         else:
             break
         if bad < 1 or bad > len(lines):
